@@ -132,11 +132,12 @@ method) on an instance that conforms to the declared types — *without* any ass
 operand types, boolean contexts or call arguments (the checks the inferrer lacks).
 
 `key` is the inferrer's key of a node (`_representation_map`; the real one is `canon`, see
-`inferC`); what is needed of it is injectivity: two different expressions never share a key.
+`inferC`); what is needed of it is `KeySound`: expressions that share a key have the same value
+(injective keys trivially; the real canonical strings identify `f"x"` with `"x"`).
 `EnvSafe` / `CallsConform` are about the *parameters* of the evaluation (verification
 functions, methods, float arithmetic): they do not raise `AttributeError` on `None` themselves
 and return values of their declared return type. -/
-theorem none_safety {κ : Type} [DecidableEq κ] {key : Expr → κ} (hk : Function.Injective key)
+theorem none_safety {κ : Type} [DecidableEq κ] {key : Expr → κ} (hk : KeySound key)
     (Γ : TEnv) (ρ : Env) (e : Expr) (τ : Ty)
     (hwf : Γ.decls.WF) (hconf : Conforms ρ Γ) (hsafe : EnvSafe ρ) (hcalls : CallsConform ρ Γ)
     (h : infer key Γ [] e = .ok τ) : eval ρ e ≠ .noneDeref :=
@@ -146,7 +147,7 @@ theorem none_safety {κ : Type} [DecidableEq κ] {key : Expr → κ} (hk : Funct
 /-- Values of the types the inferrer does track reliably (classes, enumerations, lists,
 `Optional`s — everything but primitives and functions) are of the inferred type: the part of
 `Sound` that holds unconditionally. -/
-theorem sound_nonprimitive {κ : Type} [DecidableEq κ] {key : Expr → κ} (hk : Function.Injective key)
+theorem sound_nonprimitive {κ : Type} [DecidableEq κ] {key : Expr → κ} (hk : KeySound key)
     (Γ : TEnv) (ρ : Env) (e : Expr) (τ : Ty) (v : Val)
     (hwf : Γ.decls.WF) (hconf : Conforms ρ Γ) (hsafe : EnvSafe ρ) (hcalls : CallsConform ρ Γ)
     (h : infer key Γ [] e = .ok τ) (hτ : τ.isLoose = false) (hv : eval ρ e = .val v) : HasTy Γ.decls v τ := by
@@ -162,16 +163,19 @@ open Classical
 /-- Non-vacuity of the key hypothesis: an inferrer that keys its facts by the expressions
 themselves (`key = id`) is none-safe.  (For the real keys, `canon`, injectivity on the
 sub-expressions of every generated invariant is checked by the correspondence harness:
-stream `canon`.) -/
+stream `canon-injective`.) -/
 theorem none_safety_structural_keys (Γ : TEnv) (ρ : Env) (e : Expr) (τ : Ty)
     (hwf : Γ.decls.WF) (hconf : Conforms ρ Γ) (hsafe : EnvSafe ρ) (hcalls : CallsConform ρ Γ)
     (h : infer (fun e => e) Γ [] e = .ok τ) : eval ρ e ≠ .noneDeref :=
-  none_safety (fun _ _ h => h) Γ ρ e τ hwf hconf hsafe hcalls h
+  none_safety (KeySound.of_injective (fun _ _ h => h)) Γ ρ e τ hwf hconf hsafe hcalls h
 
 end
 
-/-- The real inferrer (`canon` keys) under the one thing the proof needs of `canon`. -/
-theorem none_safety_canon (hcanon : Function.Injective canon) (D : Decls) (self : Text) (ρ : Env) (e : Expr) (τ : Ty)
+/-- The real inferrer (`canon` keys) under the one thing the proof needs of `canon` — which is
+*validated, not verified*: the harness checks on every generated invariant that sub-expressions
+with equal canonical strings are equal up to `f"lit"` = `"lit"`.  (It does not hold for
+identifiers that contain `.`, brackets or spaces, which the Python parser cannot produce.) -/
+theorem none_safety_canon (hcanon : KeySound canon) (D : Decls) (self : Text) (ρ : Env) (e : Expr) (τ : Ty)
     (hwf : D.WF) (hconf : Conforms ρ (TEnv.forSelf D self)) (hsafe : EnvSafe ρ)
     (hcalls : CallsConform ρ (TEnv.forSelf D self)) (h : inferC (TEnv.forSelf D self) e = .ok τ) :
     eval ρ e ≠ .noneDeref :=
